@@ -56,3 +56,22 @@ def toVec (m : Mode) (k : ConvKind) (b : List Nat) : Outcome ValList :=
       | _ => .err .typeError
 
 end AgdbCodec
+
+namespace AgdbCodec
+
+/-! ### Recursive derived types
+
+`QueryCondition { …, data: QueryConditionData::Where(Vec<QueryCondition>) }` (hence `SearchQuery`,
+`QueryIds`, `QueryType`) is outside the `Schema` universe.  Its derived `deserialize` recurses
+once per nesting level of the INPUT with no depth limit, so — unlike every `Schema` decoder, whose
+recursion depth is bounded by the type — the stack needed is chosen by the input.
+Stack model: every level needs at least `MIN_FRAME` bytes of a `STACK`-byte stack. -/
+
+def STACK : Nat := 8388608
+def MIN_FRAME : Nat := 64
+
+/-- decode a `QueryCondition` nested `depth` levels deep (`Where(vec![Where(vec![…])])`) -/
+def deepDecode (depth : Nat) : Outcome Unit :=
+  if depth * MIN_FRAME > STACK then .outOfFuel else .ok ()
+
+end AgdbCodec
